@@ -94,7 +94,7 @@ run_command_line = Fn(
          '&& st(spec_line_to_cmds(line@), final(lg).log, old(lg).log.len() as int, spec_line_to_cmds(line@).len() as int).2 == final(lg).log.len()'),
         ('C03.log_grows', 'old(lg).log.len() <= final(lg).log.len() && '
          'forall|k: int| 0 <= k < old(lg).log.len() ==> final(lg).log[k] == old(lg).log[k]'),
-        ('C03.status_is_last_run',
+        ('C03+C10.status_is_last_run',
          'final(lg).log.len() > old(lg).log.len() ==> final(sh).previous_status == final(lg).log.last().1'),
         ('C03.results_in_order',
          'r@.len() == final(lg).log.len() - old(lg).log.len() && '
@@ -104,11 +104,11 @@ run_command_line = Fn(
         ('C03.inv.cmds', 'strs(cmds@) == spec_line_to_cmds(line@)'),
         ('C03.inv.prefix', 'old(lg).log.len() <= lg.log.len() && forall|k: int| 0 <= k < old(lg).log.len() ==> lg.log[k] == old(lg).log[k]'),
         ('C03.inv.ran_ok', 'ran_ok(strs(cmds@), lg.log, old(lg).log.len() as int, __i0 as int)'),
-        ('C03.inv.prev', 'lg.log.len() > old(lg).log.len() ==> sh.previous_status == lg.log.last().1 && status == lg.log.last().1'),
+        ('C03+C10.inv.prev', 'lg.log.len() > old(lg).log.len() ==> sh.previous_status == lg.log.last().1 && status == lg.log.last().1'),
         ('C03.inv.results', 'cr_list@.len() == lg.log.len() - old(lg).log.len() && '
          'forall|k: int| 0 <= k < cr_list@.len() ==> cr_list@[k].status == #[trigger] lg.log[old(lg).log.len() + k].1'),
     ], invariant_except_break=[
-        ('C03+C15.inv.state', 'st(strs(cmds@), lg.log, old(lg).log.len() as int, __i0 as int) == (sep@, status as int, lg.log.len() as int, false)'),
+        ('C03+C10+C15.inv.state', 'st(strs(cmds@), lg.log, old(lg).log.len() as int, __i0 as int) == (sep@, status as int, lg.log.len() as int, false)'),
     ], ensures=[
         # the loop is left at the end of the list, or (C15) right after a pipeline that failed under `set -e` at the end of its and-or list
         ('C03+C15.loop_left_at_the_end_or_at_the_stop_rule',
